@@ -1340,7 +1340,24 @@ func runStoreC06(o *opts) error {
 		stats["rc_seq_histories"]++
 		stats["rc_tx"] += strings.Count(line, " TX")
 	}
+	// ---- equal field names in sibling child stores / at parent and child level (store_c06_names.go; generated after
+	// everything else: the streams above are unchanged)
+	nsn := o.getInt("samename", -1)
+	if nsn < 0 {
+		nsn = n * 3 / 10
+		if o.thorough() {
+			nsn = n / 10
+		}
+	}
+	if err := c06NameStream(o, r, nsn, tmp, stats, func(c, obs, nv string) {
+		cases.line("%s", c)
+		impl.line("%s", obs)
+		nev.line("%s", nv)
+	}); err != nil {
+		return err
+	}
 	writeJSON(o.out, "stats.json", stats)
+	fmt.Fprintf(os.Stderr, "storec06: %d same-name histories\n", nsn)
 	fmt.Fprintf(os.Stderr, "storec06: %d histories, %d rc histories, %d burst histories, %d child-level histories, %d rc child-level histories, %d link-sequence histories, %d rc sequence histories\n", n, nrc, nb, nch, nrcc, nls, nrs)
 	return nil
 }
